@@ -80,7 +80,7 @@ fn replace_first(hay: &[u8], from: &[u8], to: &[u8]) -> Option<Vec<u8>> {
 }
 
 pub const CORRUPTIONS: &[&str] = &[
-    "status-unregistered", "status-non-numeric", "status-out-of-i16", "phrase-of-another-status", "unknown-version", "opening-boundary-removed", "part-content-range-removed", "part-content-range-non-numeric", "part-content-range-start-after-end", "part-content-range-end-after-size", "blank-line-removed", "content-length-not-a-number", "closing-boundary-removed",
+    "status-unregistered", "status-non-numeric", "status-out-of-i16", "phrase-of-another-status", "phrase-truncated", "phrase-first-word-only", "phrase-empty", "phrase-extended", "phrase-with-a-letter-changed", "unknown-version", "opening-boundary-removed", "part-content-range-removed", "part-content-range-non-numeric", "part-content-range-start-after-end", "part-content-range-end-after-size", "blank-line-removed", "content-length-not-a-number", "closing-boundary-removed",
 ];
 
 /// None: the corruption does not apply to this serialisation
@@ -93,6 +93,31 @@ pub fn corrupt(bytes: &[u8], r: &Response, which: &str) -> Option<Vec<u8>> {
         "phrase-of-another-status" => {
             let other = if r.status_code == 404 { "OK" } else { "Not Found" };
             replace_first(bytes, status.as_bytes(), format!(" {} {}\r\n", r.status_code, other).as_bytes())
+        }
+        "phrase-truncated" => {
+            let p = &r.reason_phrase;
+            if p.len() < 2 {
+                return None;
+            }
+            replace_first(bytes, status.as_bytes(), format!(" {} {}\r\n", r.status_code, &p[..p.len() - 1]).as_bytes())
+        }
+        "phrase-first-word-only" => {
+            let p = r.reason_phrase.split(' ').next().unwrap_or("").to_string();
+            if p == r.reason_phrase {
+                return None;
+            }
+            replace_first(bytes, status.as_bytes(), format!(" {} {}\r\n", r.status_code, p).as_bytes())
+        }
+        "phrase-empty" => replace_first(bytes, status.as_bytes(), format!(" {} \r\n", r.status_code).as_bytes()),
+        "phrase-extended" => replace_first(bytes, status.as_bytes(), format!(" {} {}ish\r\n", r.status_code, r.reason_phrase).as_bytes()),
+        "phrase-with-a-letter-changed" => {
+            let mut p: Vec<char> = r.reason_phrase.chars().collect();
+            if p.is_empty() {
+                return None;
+            }
+            let last = p.len() - 1;
+            p[last] = if p[last] == 'x' { 'y' } else { 'x' };
+            replace_first(bytes, status.as_bytes(), format!(" {} {}\r\n", r.status_code, p.into_iter().collect::<String>()).as_bytes())
         }
         "unknown-version" => replace_first(bytes, b"HTTP/1.1 ", b"HTTP/9.9 "),
         "opening-boundary-removed" => replace_first(bytes, b"\r\n\r\n--String_separator\r\n", b"\r\n\r\n"),
@@ -284,7 +309,7 @@ pub fn run(ctx: &mut Ctx) {
         }
         // corruptions of valid serialisations
         for c in CORRUPTIONS {
-            for si in [4usize, 10, 26] {
+            for si in [0usize, 4, 10, 26, 41] {
                 go(ctx, Case { serialiser: ser.into(), status_index: si, headers: hs(1), parts: vec![("text/plain".into(), 0, b"body".to_vec())], corruption: c.to_string() });
                 go(ctx, Case { serialiser: ser.into(), status_index: si, headers: hs(1), parts: vec![("text/plain".into(), 0, b"one".to_vec()), ("image/png".into(), 10, b"two".to_vec())], corruption: c.to_string() });
             }
